@@ -17,7 +17,7 @@ contract("uxarray.grid.connectivity._replace_fill_values", props=["C01", "C19"],
          options={"frames": True},
          raises=[("Exception", "False", "only_if")])
 
-contract("uxarray.io._topology._process_connectivity", props=["C01", "C19"],
+contract("uxarray.io._topology._process_connectivity", props=["C01", "C19", "C20"],
          sizes=["n", "W"],
          params={"conn": "arr(int, n, W, owner='caller')", "orig_fv": "optional(int)", "start_index": "int"},
          requires=[
